@@ -362,6 +362,7 @@ func checkC14(c *Check) {
 	}
 	c.hostnameNormalisation()
 	c.inventoryClientRules("R6")
+	c.cancelBeforeDrain("R3", l.Func("provider/cluster", "deploymentMonitor", "run"))
 	// subscribe-then-snapshot: a lease-closed event published while the start-up snapshot of deployed leases is being
 	// taken must already be buffered by the subscription, or the manager created from the snapshot is never told
 	{
